@@ -290,6 +290,21 @@ func (e *E3) analyseBnd(f *ssa.Function, fb *fnBnd) {
 				e.indexOb(f, fb, b, in, x.X, x.Index, add)
 			case *ssa.Slice:
 				e.sliceOb(f, fb, b, x, add)
+			case *ssa.SliceToArrayPointer:
+				// (*[N]T)(s) and [N]T(s) panic when len(s) < N
+				if pt, ok := x.Type().Underlying().(*types.Pointer); ok {
+					if at, ok := pt.Elem().Underlying().(*types.Array); ok {
+						key := fmt.Sprintf("toarray | %s | %d", shortVal(x.X), at.Len())
+						nt := termT{v: ssa.NewConst(constantInt(at.Len()), types.Typ[types.Int])}
+						if at.Len() == 0 {
+							add(in, "toarray", key, true, "zero-length array", "")
+						} else if ok, by := e.lenObligation(f, fb, b, nt, x.X, 0); ok {
+							add(in, "toarray", key, true, by, "")
+						} else {
+							add(in, "toarray", key, false, "", fmt.Sprintf("conversion of a slice to an array of %d elements panics when the slice is shorter: %s", at.Len(), by))
+						}
+					}
+				}
 			case *ssa.BinOp:
 				if (x.Op == token.QUO || x.Op == token.REM) && isIntType(x.Type()) {
 					key := "div | " + shortVal(x.Y)
